@@ -161,9 +161,14 @@ package mhprimary
 //@   ensures @pooled-next (blk in cp.nextPool.refs) && cp.nextPool.blocks[cp.nextPool.refs[blk]].key != nil ==> err == nil && key == cp.nextPool.blocks[cp.nextPool.refs[blk]].key && value == cp.nextPool.blocks[cp.nextPool.refs[blk]].value
 //@   ensures @pooled-cur !(blk in cp.nextPool.refs) && (blk in cp.curPool.refs) && cp.curPool.blocks[cp.curPool.refs[blk]].key != nil ==> err == nil && key == cp.curPool.blocks[cp.curPool.refs[blk]].key && value == cp.curPool.blocks[cp.curPool.refs[blk]].value
 
-//@ func readNode(data []byte) (mh multihash.Multihash, val []byte, err error)
-//@   trusted go-multihash reader (dependency): a well-formed multihash at the start of data is consumed exactly
-//@   ensures err == nil ==> mh != nil && len(mh) + len(val) == len(data) && bytes(mh) == bytes(data)[:len(mh)] && bytes(val) == bytes(data)[len(mh):]
+// readNode is verified against its body: the value is exactly what follows the multihash that
+// readMh consumed. Only readMh, the wrapper around the go-multihash reader, is assumed.
+//@ func readNode(data []byte) (mh multihash.Multihash, val []byte, err error)  property C01 C04
+//@   ensures @key-then-value err == nil ==> mh != nil && len(mh) + len(val) == len(data) && bytes(mh) == bytes(data)[:len(mh)] && bytes(val) == bytes(data)[len(mh):]
+
+//@ func readMh(buf []byte) (h multihash.Multihash, n int, err error)
+//@   trusted go-multihash reader (dependency): a well-formed multihash at the start of buf is consumed exactly, and n is its length
+//@   ensures err == nil ==> h != nil && n == len(h) && 0 < n && n <= len(buf) && bytes(h) == bytes(buf)[:n]
 
 // ===========================================================================
 // Primary garbage collection: orderings and frames (C03-D5, C04, C11).
@@ -189,8 +194,9 @@ package mhprimary
 
 //@ footprint MHGC = heap("multihash.primaryGC.reclaimed"), heap("multihash.MultihashPrimary.rec"), heap("multihash.MultihashPrimary.nextPool"), heap("multihash.MultihashPrimary.outstandingWork"), heap("multihash.blockRecord"), heap("types.Block->int"), heap("freelist.FreeList"), heap("E:uint8"), heap("E:~/store/types.Block"), heap("G:"), heap("os.File")
 
-//@ func (cp *MultihashPrimary) IndexKey(key []byte) (ikey []byte, err error)
-//@   trusted go-multihash Decode (dependency): the digest is a sub-slice of the key
+// IndexKey is verified against its body over the assumed contract of go-multihash's Decode
+// (contracts/ext/ipfs.spec): a key that does not decode is refused, otherwise the digest is handed back.
+//@ func (cp *MultihashPrimary) IndexKey(key []byte) (ikey []byte, err error)  property C01
 //@   pure
 //@   ensures err == nil ==> ikey != nil && baseof(ikey) == baseof(key)
 
